@@ -1,5 +1,6 @@
 /- Driver/Id3File.lean — ID3-framed file container commands (C02/C03/C07/C08/C09 for MP3-like files) -/
 import MutagenModel.Model.Container.Id3File
+import MutagenModel.Model.Container.Id3FileM
 import Driver.Util
 import Driver.FlacC
 namespace Driver
@@ -14,6 +15,12 @@ def id3fOp (a : Args) : String :=
   match a.str "op" with
   | "save" => exB (save (a.bytes "data") (a.nat "vmaj" 4) (a.bytes "frames") (padOf a) (a.nat "v1opt" 1) (a.bytes "v1blk"))
   | "delete" => exB (delete (a.bytes "data") (a.nat "v1" 1 == 1) (a.nat "v2" 1 == 1))
+  -- the FileM programs with a fault schedule / capacity (`fail=<i>:<err> short=<i>:<k> cap=<n> leak=<n> B=<n>`)
+  | "savem" =>
+    showResult (saveM (a.nat "B" 1048576) (a.nat "vmaj" 4) (a.bytes "frames") (padOf a) (a.nat "v1opt" 1) (a.bytes "v1blk")
+      (envOf a) { data := a.bytes "data" })
+  | "deletem" =>
+    showResult (deleteM (a.nat "B" 1048576) (a.nat "v1" 1 == 1) (a.nat "v2" 1 == 1) (envOf a) { data := a.bytes "data" })
   | "findv1" => match findV1 (a.bytes "data") with | some n => s!"ok n={n}" | none => "ok n=0"
   | "hdr" => match headerSize (a.bytes "data") with
     | .ok (some n) => s!"ok size={n}" | .ok none => "ok size=none" | .error e => s!"err {e.name}"
